@@ -42,6 +42,8 @@ Theorem C13_soc_W_Winv_inverse : stmt_soc_W_Winv_inverse.
 Proof. exact soc_W_Winv_inverse_ok. Qed.
 Theorem C13_soc_W_symmetric : stmt_soc_W_symmetric.
 Proof. exact soc_W_symmetric_ok. Qed.
+Theorem C13_soc_mul_W_affine : stmt_soc_mul_W_affine.
+Proof. exact soc_mul_W_affine_ok. Qed.
 Theorem C13_soc_Hs_formula : stmt_soc_Hs_formula.
 Proof. exact soc_Hs_formula_ok. Qed.
 Theorem C13_soc_Hs_is_WW : stmt_soc_Hs_is_WW.
